@@ -6,3 +6,5 @@ import Tcell.Model.Views
 import Tcell.Model.ViewsTree
 import Tcell.Props.C20
 import Tcell.Props.C16
+import Tcell.Props.C07
+import Tcell.Props.C15
